@@ -918,4 +918,121 @@ theorem keysInv_revert (cfg : Cfg) (d : Diff) (rest : List Diff) (s s' : NState)
     obtain ⟨q, hq, rfl⟩ := hp
     exact (hd.storage q hq).1
 
+/-! ### the same invariant for the legacy backend's log buckets (Deprecated*History) -/
+
+theorem logSetStep_wf (K : Addr → HKey) (log : Bool) (b : Nat) (hb : b < 2 ^ 64) (x : Bucket Addr Nat × Bucket HKey Hist)
+    (p : Addr × Nat) (hk : (K p.1).Felts) (h : HistBucketWF x.2) : HistBucketWF (logSetStep K log b x p).2 := by
+  unfold logSetStep
+  split
+  · cases log
+    · exact h
+    · exact histBucketWF_put _ h _ b _ hk hb
+  · exact h
+
+theorem replaceAll_logs_wf (s : LState) (log : Bool) (b : Nat) (hb : b < 2 ^ 64) (l : List (Addr × CHash))
+    (hl : ∀ p ∈ l, p.1 < 2 ^ 256) (h : HistBucketWF s.logs) : HistBucketWF (s.replaceAll log b l).logs := by
+  unfold LState.replaceAll
+  exact foldl_inv (fun x : Bucket Addr Nat × Bucket HKey Hist => HistBucketWF x.2) _ _ _
+    (fun acc p hp hacc => logSetStep_wf HKey.classHash log b hb acc p (hl p hp) hacc) h
+
+theorem nonceAll_logs_wf (s : LState) (log : Bool) (b : Nat) (hb : b < 2 ^ 64) (l : List (Addr × Val))
+    (hl : ∀ p ∈ l, p.1 < 2 ^ 256) (h : HistBucketWF s.logs) : HistBucketWF (s.nonceAll log b l).logs := by
+  unfold LState.nonceAll
+  exact foldl_inv (fun x : Bucket Addr Nat × Bucket HKey Hist => HistBucketWF x.2) _ _ _
+    (fun acc p hp hacc => logSetStep_wf HKey.nonce log b hb acc p (hl p hp) hacc) h
+
+theorem legacySlots_logs_wf (log : Bool) (b : Nat) (hb : b < 2 ^ 64) (a : Addr) (ha : a < 2 ^ 256) (t : Leaves)
+    (lg : Bucket HKey Hist) (slots : List (Slot × Val)) (hs : ∀ e ∈ slots, e.1 < 2 ^ 256) (h : HistBucketWF lg) :
+    HistBucketWF (legacySlots log b a t lg slots).2 := by
+  unfold legacySlots
+  apply foldl_inv (fun acc : Leaves × Bucket HKey Hist => HistBucketWF acc.2) _ _ _ _ h
+  intro acc e he hacc
+  simp only
+  split
+  · exact histBucketWF_put _ hacc _ b _ ⟨ha, hs e he⟩ hb
+  · exact hacc
+
+theorem storageAll_logs_wf (s : LState) (log : Bool) (b : Nat) (hb : b < 2 ^ 64) (l : List (Addr × List (Slot × Val)))
+    (hl : ∀ p ∈ l, p.1 < 2 ^ 256 ∧ ∀ e ∈ p.2, e.1 < 2 ^ 256) (h : HistBucketWF s.logs) :
+    HistBucketWF (s.storageAll log b l).logs := by
+  unfold LState.storageAll
+  apply foldl_inv (fun x : Bucket Addr Leaves × Bucket HKey Hist => HistBucketWF x.2) _ _ _ _ h
+  intro acc p hp hacc
+  unfold storageStep
+  exact legacySlots_logs_wf log b hb p.1 (hl p hp).1 _ _ p.2 (hl p hp).2 hacc
+
+theorem deploySystem_logs (s : LState) (b : Nat) (addrs : List Addr) : (s.deploySystem b addrs).logs = s.logs := rfl
+
+theorem afterContracts_logs_wf (s : LState) (log : Bool) (b : Nat) (hb : b < 2 ^ 64)
+    (replaced : List (Addr × CHash)) (nonces : List (Addr × Val)) (storage : List (Addr × List (Slot × Val)))
+    (hr : ∀ p ∈ replaced, p.1 < 2 ^ 256) (hn : ∀ p ∈ nonces, p.1 < 2 ^ 256)
+    (hs : ∀ p ∈ storage, p.1 < 2 ^ 256 ∧ ∀ e ∈ p.2, e.1 < 2 ^ 256) (h : HistBucketWF s.logs) :
+    HistBucketWF (s.afterContracts log b replaced nonces storage).logs := by
+  unfold LState.afterContracts
+  apply storageAll_logs_wf _ log b hb storage hs
+  rw [deploySystem_logs]
+  exact nonceAll_logs_wf _ log b hb nonces hn (replaceAll_logs_wf s log b hb replaced hr h)
+
+theorem purgeSystem_logs (s : LState) : s.purgeSystem.logs = s.logs := by
+  unfold LState.purgeSystem
+  apply foldl_inv (fun x : LState => x.logs = s.logs) _ _ _ _ rfl
+  intro acc a _ hacc
+  split
+  · simpa [LState.purge] using hacc
+  · exact hacc
+
+theorem logsDelAll_wf (h : Bucket HKey Hist) (hwf : HistBucketWF h) (b : Nat) (d : Diff) (hd : d.Felts) :
+    HistBucketWF (logsDelAll h b d) := by
+  unfold logsDelAll
+  have h1 : HistBucketWF (d.storage.foldl (fun h p => p.2.foldl (fun h e => histDel h (.storage p.1 e.1) b) h) h) := by
+    apply foldl_inv HistBucketWF _ _ _ _ hwf
+    intro acc p hp hacc
+    apply foldl_inv HistBucketWF _ _ _ _ hacc
+    intro acc' e he hacc'
+    exact histBucketWF_del _ hacc' _ b ⟨(hd.storage p hp).1, (hd.storage p hp).2 e he⟩
+  have h2 := foldl_inv HistBucketWF (fun h p => histDel h (.nonce p.1) b) d.nonces _
+    (fun acc p hp hacc => histBucketWF_del _ hacc (.nonce p.1) b (hd.nonces p hp)) h1
+  exact foldl_inv HistBucketWF (fun h p => histDel h (.classHash p.1) b) d.replaced _
+    (fun acc p hp hacc => histBucketWF_del _ hacc (.classHash p.1) b (hd.replaced p hp)) h2
+
+def KeysInvL (ch : List Diff) (s : LState) : Prop :=
+  HistBucketWF s.logs ∧ ch.length ≤ 2 ^ 64 ∧ ∀ d ∈ ch, d.Felts
+
+theorem keysInvL_init : KeysInvL [] LState.empty := ⟨histBucketWF_nil, Nat.zero_le _, fun _ h => (nomatch h)⟩
+
+theorem keysInvL_store (ch : List Diff) (s s' : LState) (d : Diff) (hI : KeysInvL ch s)
+    (hP : d.Felts ∧ ch.length < 2 ^ 64) (hu : legacyBackend.update s ch.length d = .ok s') : KeysInvL (d :: ch) s' := by
+  have hs' := (legacy_update_ok s s' ch.length d hu).2
+  refine ⟨?_, by simp only [List.length_cons]; omega, ?_⟩
+  · rw [hs']
+    exact afterContracts_logs_wf _ true _ hP.2 _ _ _ hP.1.replaced hP.1.nonces hP.1.storage hI.1
+  · intro d' hd'
+    rcases List.mem_cons.mp hd' with e | e
+    · subst e; exact hP.1
+    · exact hI.2.2 d' e
+
+theorem keysInvL_revert (d : Diff) (rest : List Diff) (s s' : LState) (hI : KeysInvL (d :: rest) s)
+    (hr : legacyBackend.revert s rest.length d = .ok s') : KeysInvL rest s' := by
+  have hs' := (legacy_revert_ok true s s' rest.length d hr).2.2
+  have hd := hI.2.2 d (List.mem_cons_self ..)
+  have hlen : rest.length < 2 ^ 64 := by have := hI.2.1; simp only [List.length_cons] at this; omega
+  refine ⟨?_, by omega, fun d' hd' => hI.2.2 d' (List.mem_cons_of_mem _ hd')⟩
+  rw [hs', purgeSystem_logs]
+  show HistBucketWF (LState.afterContracts _ false rest.length _ _ _).logs
+  apply afterContracts_logs_wf _ false _ hlen
+  · intro p hp
+    obtain ⟨q, hq, rfl⟩ := List.mem_map.mp hp
+    exact hd.replaced q hq
+  · intro p hp
+    obtain ⟨q, hq, rfl⟩ := List.mem_map.mp hp
+    exact hd.nonces q hq
+  · intro p hp
+    simp only [LState.reverseStorage, List.mem_map] at hp
+    obtain ⟨q, hq, rfl⟩ := hp
+    refine ⟨(hd.storage q hq).1, ?_⟩
+    intro e he
+    obtain ⟨x, hx, rfl⟩ := List.mem_map.mp he
+    exact (hd.storage q hq).2 x hx
+  · exact logsDelAll_wf _ hI.1 _ d hd
+
 end Juno.C03
